@@ -45,7 +45,7 @@ func init() {
 	register(&Rule{ID: "R-TIMEFIELDS", Floor: 8, Run: ruleTimeFields,
 		Text: "hour/minute/seconds/day/month/year/weekday each return the component of the host time library's decomposition that their name says (Clock: hour, minute, second; Date: year, month, day; Weekday().String())."})
 	register(&Rule{ID: "R-MACHINENIL", Floor: 1, Run: ruleMachineNil,
-		Text: "An API method without a recover of its own uses the prepared machine only after testing that Prepare built one."})
+		Text: "An API method without a recover of its own uses the prepared machine only after testing that Prepare built one; and the deferred clean-up of an API method — which runs while a panic unwinds, outside any recover — touches the machine only under such a test (or through a method that tests its own receiver)."})
 }
 
 // handlerClause returns the case clause of the interpreter's dispatch switch
